@@ -144,8 +144,9 @@ def Conn.flushLoop : Nat → Conn → Nat → Int → Bool → Conn × Bool
       match c.buf sid with
       | [] => (c, sent)
       | ch :: rest =>
+        let lim : Int := min w c.mfs        -- sendable = min(available_window, max_outbound_frame_size)
         let (now, rest') : Chunk × List Chunk :=
-          if (ch.data.length : Int) > w then (⟨ch.data.take w.toNat, false⟩, ⟨ch.data.drop w.toNat, ch.fin⟩ :: rest)
+          if (ch.data.length : Int) > lim then (⟨ch.data.take lim.toNat, false⟩, ⟨ch.data.drop lim.toNat, ch.fin⟩ :: rest)
           else (ch, rest)
         let c := c.rawSend sid now.data now.fin
         let c :=
@@ -159,7 +160,7 @@ def Conn.flushLoop : Nat → Conn → Nat → Int → Bool → Conn × Bool
 /-- `stream_window_updated` -/
 def Conn.streamWindowUpdated (c : Conn) (sid : Nat) : Conn × Bool :=
   if !c.liveS sid then ({ c with bufs := aerase sid c.bufs }, false)
-  else Conn.flushLoop ((c.buf sid).length + 1) c sid (c.localWin sid) false
+  else Conn.flushLoop ((c.buf sid).length + ((c.buf sid).map (·.data.length)).sum + 1) c sid (c.localWin sid) false
 
 /-- one pass of the `for stream_id in list(self.stream_buffers)` loop -/
 def Conn.rrPass : List Nat → Conn → Bool → Conn × Bool × Bool     -- (conn, sent_any, returned early)
